@@ -64,6 +64,9 @@ def cases(tier, seed):
     for d, B in itertools.product(("G5nm", "G5mm"), (0.2,) if quick else fields):
         for tol in (1e-3,) if quick else tols:
             out.append(dict(fam="run", dev=d, B=B, tol=tol, ab=0, maxit=1000))
+    # an undriven screened run (currents identically zero: the sum is zero) after a driven screened run in the same process
+    for d in ("G1s", "G5"):
+        out.append(dict(fam="run", dev=d, B=0.0, tol=1e-3, ab=0, maxit=1000, prior="driven"))
     # thermalisation first: iterations of both stages are judged; the recorded stage starts from the thermalised state
     for d, tol in itertools.product(("G1s", "G5"), (1e-2, 1e-3) if quick else tols):
         out.append(dict(fam="run", dev=d, B=0.5, tol=tol, ab=0, maxit=1000, thermal=True))
@@ -205,6 +208,10 @@ def run_run(case):
         include_screening=True, screening_tolerance=case["tol"], screening_step_size=alpha, screening_step_drag=beta,
         max_iterations_per_step=case["maxit"], progress_interval=10**9, field_units=fu, skip_time=(3 * dt if case.get("thermal") else 0.0),
     )
+    if case.get("prior"):
+        po = tdgl.SolverOptions(solve_time=3 * dt, dt_init=dt, dt_max=dt, adaptive=False, save_every=3, output_file="prior.h5", include_screening=True,
+                                screening_tolerance=1e-2, progress_interval=10**9, field_units=fu)
+        tdgl.solve(dev, po, applied_vector_potential=0.6 * {"uT": 1e3, "T": 1e-3, "mT": 1.0}[fu])
     solver = tdgl.TDGLSolver(dev, opts, **kw)
     si = SI(dev)
     calls = []
@@ -266,6 +273,9 @@ def run_run(case):
             e_it = float(np.abs(A_new - want_new).max()) / scale
             if np.abs(J).max() > 0:
                 res.nontrivial = True
+            else:
+                res.count("iterations_with_zero_current")
+            if True:
                 res.residual("iterate", e_it)
                 if e_it > TOLERANCES["iterate"]:
                     res.violate("iterate-not-from-SI-sum", detail={"case": case, "step": step, "iteration": it, "rel": e_it,
